@@ -101,7 +101,16 @@ def cached_quantity(f):
             activeq.add(name)
 
         # Go ahead and calculate the value -- each parameter accessed will add itself to the index.
-        value = f(self)
+        try:
+            value = f(self)
+        except Exception:
+            if not supered:
+                # Roll back the partial index so the object stays usable.
+                activeq.discard(name)
+                recalc.pop(name, None)
+                recalc_prpa.pop(name, None)
+                self.__dict__.pop(prop, None)
+            raise
         setattr(self, prop, value)
 
         # Invert the index
